@@ -42,6 +42,10 @@ def corpus():
         # a list edited away from and back to what the first of several outstanding SETCONFs carries (the hole in the first repair of F22)
         dict(base, ops=[['lop', 'Log', 'append', 'a'], ['save'], ['lop', 'Log', 'append', 'b'], ['save'], ['lop', 'Log', 'pop'], ['ack', True], ['ack', True],
                         ['save'], ['ack', True]]),
+        # an option assigned away from and back to the value an outstanding SETCONF carries (the same object again for small numbers and
+        # text constants): it was changed since that save was sent (seeded change C10-12)
+        dict(base, ops=[['assign', 'NumCPUs', 8], ['save'], ['assign', 'NumCPUs', 2], ['assign', 'NumCPUs', 8], ['ack', True], ['save'], ['ack', True]]),
+        dict(base, ops=[['assign', 'Nickname', 'bob'], ['save'], ['assign', 'Nickname', 'alice'], ['assign', 'Nickname', 'bob'], ['ack', True], ['save'], ['ack', True]]),
         # texts with a line end at the end only, alone, or inside, next to other options in the same save: one command line all the same
         dict(base, ops=[['assign', 'Nickname', 'erin\n'], ['assign', 'NumCPUs', 2], ['save'], ['ack', True], ['assign', 'Nickname', 'bob'], ['save'], ['ack', True]]),
         dict(base, ops=[['assign', 'Nickname', '\n'], ['lop', 'Log', 'append', 'info file y\n'], ['save'], ['ack', True]]),
